@@ -343,9 +343,17 @@ def deferRcu (t : Nat) (ft pt : String) : M Unit := do
   if nw > 1 && (g.a.wlen t % g.ca.size) + nw > g.ca.size then cover "entry_across_ring_wrap"
   if g.a.wlen t + nw - g.a.tail t == g.ca.size then cover "occupancy_eq_size"
   storeWords t
-  P.expect "WMB" []
+  -- cmm_smp_wmb(): store-store order is kept by x86-TSO itself and the neighbouring accesses are volatile, so the
+  -- fence is a hardware no-op here: accepted when present, when stronger (MB), or when absent (Tso: extra/missing
+  -- store-store fences do not change the set of runs); the full fence AFTER the head store is what the proof needs
   let g ← P.get
-  let v ← st (headLoc g t)
+  let v? ← P.evE fun _ e =>
+    if (e.op == "WMB" || e.op == "MB") && e.args == [] then .ok (none : Option String)
+    else if e.op == "ST" && e.arg 0 == headLoc g t then .ok (some (e.arg 1))
+    else .error s!"expected WMB (or the store of head {headLoc g t})"
+  let v ← match v? with
+    | some v => pure v
+    | none => st (headLoc g t)
   let h ← num v
   let g ← P.get
   if h != g.a.wlen t % two64 then P.fail s!"ST head {h} but the model's head is {g.a.wlen t}"
